@@ -11,6 +11,9 @@ API (everything random derives from the rng passed in):
       inherits walk that defines the key, else the default's (effective_locale(project, key, locale)).
       PKey: .id, .path (tuple of idents, the namespace first when there are namespaces), .values {locale: value},
             .vars / .comps (sorted union over locales: the arguments every call must supply), .tags {comp: html tag},
+            .attrs {comp: [(attribute name, value)]} (values from ATTR_VALS: the component is passed as `DisplayComp::new(tag,
+            &[..])` / a formatting closure / a plain tag name (&str, String) to the string flavours and as the same element
+            `<tag data-x="..">` (closure with view!, or the `<b> = <tag data-x=".." />` form) to the view flavours),
             .const (True when every locale holds a literal of one type: the const accessor chain exists)
       value = ("str", items)  items in checks/parsegen.py form (("T", text) | ("V", w1, name, w2, None) |
                               ("C", w1, name, w2, kids, w0', w1', w2')) — the source AST of the translation string
@@ -64,6 +67,10 @@ TEXTS = ["hello", "a b", " ", "x > y", "é", "日本語", "😀", "}", ">", "/",
          "l'été", "\"q\"", "\\", "&amp;", "&", "100%", "t(", "#", "@", "=", " ", "&#x27;", "don't", "\n", "  two  "]
 VALS = ["V0", "x<y", "a&b", "\"q\"", "é", "", "<b>", "7", "{{ x }}", "w w"]
 VIEW_FLAVOURS = {"td", "td_short", "t", "tu"}
+# attribute values of the components passed: plain, empty, spaces, backslashes, tab, newline, quotes, markup characters,
+# non-ASCII, astral
+ATTR_VALS = ["v1", "", "a b", "C:\\tmp\\d+", "tab\there", "nl\nx", "q\"uote", "it's", "a<b>c", "a&b", "&amp;", "é", "😀", "\\\""]
+ATTR_NAMES = ["data-x", "data-y", "title"]
 WS = ["", "", " ", "  ", "\t", "\n"]
 
 
@@ -229,6 +236,8 @@ class PKey:
         self.assignments = len(PCOUNTS) if self.plural else 2
         self.vars, self.comps = sorted(vs), sorted(cs)
         self.tags = {c: rng.choice(TAGS) for c in self.comps}
+        self.attrs = {c: ([(n, rng.choice(ATTR_VALS)) for n in rng.sample(ATTR_NAMES, rng.choice([1, 1, 2]))]
+                          if rng.random() < 0.6 else []) for c in self.comps}
         kinds = set()
         for v in self.values.values():
             if v[0] in ("absent", "null"):
@@ -437,15 +446,30 @@ def _args(key, style):
     """macro arguments of a call: variables from the local bindings, components per style"""
     out = ["%s = v_%s" % (v, v) for v in key.vars]
     if key.range_type or key.plural:
-        out.append("%s = c_count" % key.count_name if style == "string" else "%s = move || c_count" % key.count_name)
+        out.append("%s = c_count" % key.count_name if style in ("string", "string2") else "%s = move || c_count" % key.count_name)
     for c in key.comps:
         tag = key.tags[c]
+        attrs = getattr(key, "attrs", {}).get(c, [])
+        lit = lambda t: json.dumps(t, ensure_ascii=False)        # a Rust string literal (the pool needs no other escape)
         if style == "string":
-            out.append('<%s> = "%s"' % (c, tag))
-        elif style == "closure":
-            out.append("<%s> = |children: ChildrenFn| view!{ <%s>{children()}</%s> }" % (c, tag, tag))
+            if attrs:
+                out.append("<%s> = DisplayComp::new(%s, &[%s])" % (c, lit(tag), ", ".join("(%s, %s)" % (lit(n), lit(v)) for n, v in attrs)))
+            else:
+                out.append('<%s> = "%s"' % (c, tag))
+        elif style == "string2":
+            if attrs:
+                # the documented escape hatch: a function formatting the component itself
+                body = "".join(' write!(f, " {}=\\"{}\\"", %s, %s)?;' % (lit(n), lit(v)) for n, v in attrs)
+                out.append("<%s> = |f: &mut core::fmt::Formatter<'_>, ch: &dyn Fn(&mut core::fmt::Formatter<'_>) -> core::fmt::Result| "
+                           "{ write!(f, \"<%s\")?;%s f.write_str(\">\")?; ch(f)?; write!(f, \"</%s>\") }" % (c, tag, body, tag))
+            else:
+                out.append('<%s> = String::from("%s")' % (c, tag))
         else:
-            out.append("<%s> = <%s />" % (c, tag))
+            a = "".join(" %s=%s" % (n, lit(v)) for n, v in attrs)
+            if style == "closure":
+                out.append("<%s> = |children: ChildrenFn| view!{ <%s%s>{children()}</%s> }" % (c, tag, a, tag))
+            else:
+                out.append("<%s> = <%s%s />" % (c, tag, a))
     return "".join(", " + a for a in out)
 
 
@@ -461,20 +485,20 @@ def _key_fn(project, key):
     if key.range_type:
         tbl = FCOUNTS if key.range_type == "f32" else COUNTS
         L.append("    let c_count: %s = [%s][(a * 3 + %d) %% %d];" % (key.range_type, ", ".join(_num(x) for x in tbl), key.id, len(tbl)))
-    s, c, sh = _args(key, "string"), _args(key, "closure"), _args(key, "short")
+    s, c, sh, s2 = _args(key, "string"), _args(key, "closure"), _args(key, "short"), _args(key, "string2")
 
     def put(fl, expr):
         L.append('    put(%d, a, loc, "%s", %s);' % (key.id, fl, expr))
 
     put("td_string", "td_string!(loc, %s%s).to_string()" % (path, s))
-    put("td_display", "td_display!(loc, %s%s).to_string()" % (path, s))
+    put("td_display", "td_display!(loc, %s%s).to_string()" % (path, s2))
     put("td", "html(td!(loc, %s%s))" % (path, c))
     put("td_short", "html(td!(loc, %s%s))" % (path, sh))
     put("t", "html(t!(i18n, %s%s))" % (path, c))
     put("tu", "html(tu!(i18n, %s%s))" % (path, sh))
     put("t_string", "t_string!(i18n, %s%s).to_string()" % (path, s))
     put("t_display", "t_display!(i18n, %s%s).to_string()" % (path, s))
-    put("tu_string", "tu_string!(i18n, %s%s).to_string()" % (path, s))
+    put("tu_string", "tu_string!(i18n, %s%s).to_string()" % (path, s2))
     put("tu_display", "tu_display!(i18n, %s%s).to_string()" % (path, s))
     if key.const:
         put("const", "loc.get_keys_const()%s.inner().to_string()" % "".join(".%s()" % seg for seg in key.path))
@@ -507,6 +531,7 @@ MAIN_HEAD = r'''// GENERATED by /verif/checks/probe_common.py - a probe crate: p
 #![allow(unused, non_snake_case, clippy::all)]
 use leptos::prelude::*;
 use leptos_i18n::context::{init_i18n_context_with_options, CookieOptions, I18nContextOptions, UseLocalesOptions};
+use leptos_i18n::display::DisplayComp;
 use leptos_i18n::{I18nContext, Locale as _};
 leptos_i18n::load_locales!();
 use i18n::*;
